@@ -307,7 +307,13 @@ func (w *world) step(rng *rand.Rand) (string, []problem) {
 		if trunk {
 			w.stats["dup-tx-trunk"]++
 			delete(w.blocks, string(b.Blockid))
-			if st.Succ {
+			if st.Succ && w.repeated[w.lastDup] {
+				// structural precondition of the recorded finding: a stored SIDE block already repeats
+				// this transaction, so the tx -> block mapping may name that side block, and the
+				// duplicate test (which asks whether the mapped block is in the trunk) lets a
+				// main-chain repeat through
+				ps = append(ps, problem{"tx-map-repeated", "a main-chain block repeating a transaction of its own chain was accepted; a stored side block repeats that transaction too, so the tx -> block mapping names the side copy"})
+			} else if st.Succ {
 				ps = append(ps, problem{"duplicated-tx-accepted", "a block that becomes part of the main chain and repeats a transaction of its own chain was accepted"})
 			} else if st.Error != ledger.ErrTxDuplicated {
 				ps = append(ps, problem{"status", fmt.Sprintf("duplicated tx refused with %v, want ErrTxDuplicated", st.Error)})
